@@ -39,11 +39,21 @@ theorem equalpS_iff_keyP (x y : Obj) : equalpS x y = true ↔ keyP x = keyP y :=
 
 theorem foldC_idem (c : Nat) : foldC (foldC c) = foldC c := by
   unfold foldC
-  by_cases h : 65 ≤ c ∧ c ≤ 90
-  · rw [if_pos h]
-    have h2 : ¬ (65 ≤ c + 32 ∧ c + 32 ≤ 90) := by omega
-    rw [if_neg h2]
-  · rw [if_neg h, if_neg h]
+  by_cases h1 : 65 ≤ c ∧ c ≤ 90
+  · rw [if_pos h1]; split <;> (repeat' split) <;> omega
+  · rw [if_neg h1]
+    by_cases h2 : 192 ≤ c ∧ c ≤ 222 ∧ c ≠ 215
+    · rw [if_pos h2]; split <;> (repeat' split) <;> omega
+    · rw [if_neg h2]
+      by_cases h3 : 913 ≤ c ∧ c ≤ 937 ∧ c ≠ 930
+      · rw [if_pos h3]; split <;> (repeat' split) <;> omega
+      · rw [if_neg h3]
+        by_cases h4 : c = 962
+        · rw [if_pos h4]; simp
+        · rw [if_neg h4]
+          by_cases h5 : 1040 ≤ c ∧ c ≤ 1071
+          · rw [if_pos h5]; split <;> (repeat' split) <;> omega
+          · rw [if_neg h5, if_neg h1, if_neg h2, if_neg h3, if_neg h4, if_neg h5]
 
 theorem foldS_idem (s : List Nat) : foldS (foldS s) = foldS s := by
   simp [foldS, List.map_map, Function.comp_def, foldC_idem]
